@@ -121,6 +121,23 @@ def worker(shard, nshards, tier, seed):
                     acc.violation(f"C15|ne-true-for-{tag}|{cls(a)}", case(ta, ta))
             except Exception as e:  # noqa: BLE001
                 acc.violation(f"C15|ne-raises:{type(e).__name__}|{cls(a)}", case(ta, ta))
+        # schema == value  <=>  the value validates (both operand orders, and != as negation)
+        vals, _ = value_universe(ta, PROBE_LIMIT[tier])
+        for v in vals:
+            acc.count("comparisons")
+            want = verdict(a, v)
+            if not isinstance(want, bool):
+                continue
+            try:
+                got = ((a == v), (v == a), (a != v), (v != a))
+            except Exception as e:  # noqa: BLE001
+                acc.violation(f"C15|schema-vs-value-raises:{type(e).__name__}|{cls(a)}",
+                              case(ta, ta, {"value": src(v)}))
+                break
+            if got != (want, want, not want, not want):
+                acc.violation(f"C15|schema-vs-value-differs-from-validate|{cls(a)}|{type(v).__name__}",
+                              case(ta, ta, {"value": src(v)}))
+                break
         # all ordered pairs (a, b) over the core
         eqset = []
         for j in idx:
@@ -195,7 +212,12 @@ def replay(case):
         c, _ = try_build(unsrc(case["c"]))
         if eq3(a, b) is True and eq3(b, c) is True and eq3(a, c) is not True:
             out.append(True)
-    if ta == tb:
+    if "value" in case:
+        v = unsrc(case["value"])
+        want = verdict(a, v)
+        if ((a == v), (v == a), (a != v), (v != a)) != (want, want, not want, not want):
+            out.append(True)
+    elif ta == tb:
         a2, _ = try_build(ta)
         if eq3(a, a2) is not True or eq3(a, a) is not True or (a != a2):
             out.append(True)
